@@ -84,4 +84,9 @@ func init() {
 		Monitors: func() []mon.Monitor { return []mon.Monitor{mon.NewC16()} },
 		Plan:     plan([]run.PlanItem{pi("oracle-names", 12)}, []run.PlanItem{pi("oracle-names", 48)}),
 		Assume:   []string{boundsAssume, "reference = successful feed messages observed at the post-tx probe + the end-block expiry rule with the parameters read from state; feeder-set changes executed by governance are mirrored by reading the feeder store after the block"}}
+	run.Props["C04"] = &run.PropSpec{ID: "C04", Level: "exploration",
+		Rule:     "one evaluation = one swap request of an attributable sender/recipient (addresses used by exactly one request in the block): balances snapshotted before the message, after the tx, and immediately before/after the AMM end-blocker; the deltas must match the 'executed' or the 'nothing' pattern; plus idle-block and queue-empty checks; distinct = (msg, sender, stated amounts, sender delta, recipient delta) never seen before",
+		Monitors: func() []mon.Monitor { return []mon.Monitor{mon.NewC04()} },
+		Plan:     plan([]run.PlanItem{pi("swap-batch", 12), pi("mix", 4)}, []run.PlanItem{pi("swap-batch", 48), pi("mix", 16)}),
+		Assume:   []string{boundsAssume, "a request is judged only if its sender and recipient take part in no other swap request of the same block (single-message txs); tradeshield-executed swaps are not judged here"}}
 }
